@@ -689,6 +689,10 @@ func (h *H) classifyRead(toks []string) {
 	}
 	h.both(h.id("k"), "KR "+strings.Join(calls, ";"), showErr(final))
 	h.e.Count(true, strings.Join(toks, ";"), "K:read")
+	// directly: whatever the inner reader answers, what leaves the wrapper is io.EOF itself or malformed
+	if final != nil && final != io.EOF && !pdf.IsMalformed(final) {
+		h.e.Fail("non-malformed-error", "filterContentReader let an inner error through unclassified: "+showErr(final), strings.Join(toks, ";"))
+	}
 }
 
 func (h *H) classifyConstruct(tok string) {
@@ -737,6 +741,8 @@ func (h *H) sourceFailure(c *tcase, at int64, kind int) {
 		fail = io.ErrUnexpectedEOF
 	case 3:
 		fail = os.ErrDeadlineExceeded
+	case 4:
+		fail = &wrapEOF{id: 79} // "connection lost: EOF": a failure, not the end of the data
 	}
 	src := &failingSource{data: body, at: at, fail: fail}
 	var final error
@@ -1443,7 +1449,7 @@ func main() {
 		if len(c.Body()) == 0 {
 			continue
 		}
-		h.sourceFailure(c, int64(g.intn(len(c.Body())+1)), g.intn(4))
+		h.sourceFailure(c, int64(g.intn(len(c.Body())+1)), g.intn(5))
 	}
 
 	phase("failing source")
